@@ -469,6 +469,99 @@ def rule_e(ctx: Context, R: Reporter, gc: ClassInfo, hc: ClassInfo):
     R.floor("C15.e", "fit routines typed", n, 2)
 
 
+def rule_h(ctx: Context, R: Reporter, gc: ClassInfo):
+    """C15.h  every component density of the mixture is a *regularised* density: the per-component column stores
+    (A[:, k] = ...) and the density accumulations of the mixture class take their density from a
+    multivariate_normal.pdf / logpdf call whose covariance carries the reg_covar jitter (or are a constant such as
+    -inf on the error path).  A density computed by other code that never sees reg_covar is not defined for a
+    component with a zero-variance coordinate (0/0 = NaN), which the property's data sets (degenerate clusters,
+    duplicated points) produce."""
+    n = 0
+    n_calls = 0
+    for m in gc.methods.values():
+        for c in calls_in(m.node):
+            nm = ctx.res.external_name(m, c) or dotted(c.func)
+            if nm.split(".")[-1] in ("pdf", "logpdf") and "multivariate_normal" in nm:
+                n_calls += 1
+                cov = call_arg(c, 2, "cov")
+                ok = cov is not None and any(isinstance(x, ast.Attribute) and x.attr == "reg_covar" for x in ast.walk(cov))
+                R.check("C15.h", "the covariance handed to the density carries the reg_covar jitter", ok, m, c,
+                        msg=f"{m.short}: `{unparse(c)[:70]}` evaluates a component density on the bare covariance (no reg_covar): singular for a degenerate component",
+                        key=f"density-unregularised:{m.short}")
+        flow = None
+        if not any("multivariate_normal" in (ctx.res.external_name(m, c) or dotted(c.func)) for c in calls_in(m.node)):
+            continue  # not a density site (e.g. the distance-based initialisation)
+        for st in walk_no_nested(m.node):
+            tgt = None
+            if isinstance(st, ast.Assign) and len(st.targets) == 1:
+                tgt = st.targets[0]
+            elif isinstance(st, ast.AugAssign):
+                tgt = st.target
+            if not (isinstance(tgt, ast.Subscript) and isinstance(tgt.slice, ast.Tuple) and len(tgt.slice.elts) == 2 and isinstance(tgt.slice.elts[0], ast.Slice)
+                    and tgt.slice.elts[0].lower is None and tgt.slice.elts[0].upper is None and isinstance(tgt.slice.elts[1], ast.Name)):
+                continue
+            # a per-component column of an (n_samples, n_components) array
+            flow = flow or flow_of(m.node)
+            at = flow.node_containing(st)
+            rv = ExprResolver(m.node).resolve(st.value, at) if at is not None else st.value
+            n += 1
+            mvn = [c for c in ast.walk(rv) if isinstance(c, ast.Call) and dotted(c.func).split(".")[-1] in ("pdf", "logpdf") and "multivariate_normal" in dotted(c.func)]
+            const = not any(isinstance(x, (ast.Call, ast.Subscript)) for x in ast.walk(rv)) or (isinstance(rv, ast.UnaryOp) and isinstance(rv.operand, ast.Attribute))
+            if mvn or const:
+                R.check("C15.h", "the component column is filled from the regularised scipy density (or a constant)", True, m, st, key=f"column-density:{m.short}")
+                continue
+            internal = [c for c in ast.walk(rv) if isinstance(c, ast.Call) and any(isinstance(t, FuncInfo) for t in ctx.res.call_targets(m, c))]
+            sees_reg = any(isinstance(x, ast.Attribute) and x.attr == "reg_covar" for x in ast.walk(rv)) or any(
+                isinstance(x, ast.Attribute) and x.attr == "reg_covar" for c in internal for t in ctx.res.call_targets(m, c) if isinstance(t, FuncInfo) for x in ast.walk(t.node))
+            if sees_reg:
+                raise AnalysisError(f"C15.h: {m.short}: `{unparse(st)[:60]}` fills a component column from a density that is not scipy's multivariate_normal but does use reg_covar: outside the rule's vocabulary")
+            R.check("C15.h", "the component column is filled from the regularised scipy density (or a constant)", False, m, st,
+                    msg=f"{m.short}: `{unparse(st)[:70]}` fills the column of component k from a density computed without the reg_covar jitter (no multivariate_normal call on a "
+                        f"regularised covariance on its data path): for a component with a zero-variance coordinate the value is 0/0 = NaN and poisons responsibilities, "
+                        f"weights, means and covariances", key=f"column-density:{m.short}")
+    R.floor("C15.h", "component-column stores in the mixture class", n, 3)
+    R.floor("C15.h", "scipy density calls in the mixture class", n_calls, 4)
+
+
+def rule_i(ctx: Context, R: Reporter, gc: ClassInfo, hc: ClassInfo):
+    """C15.i  numpy contract: `a[idx] += v` with an integer index array applies each distinct index once -- repeated
+    indices are NOT accumulated (np.add.at / np.bincount do that).  An index array that repeats by construction (the
+    inverse of np.unique, labels / assignments, a draw with replacement, searchsorted / digitize bins) must not be the
+    subscript of an augmented assignment: merged weights / counts silently lose all but the last contribution."""
+    REPEATING = ("unique", "searchsorted", "digitize", "choice", "randint", "argmin", "argmax", "predict")
+    n = 0
+    for cls in (gc, hc):
+        for m in cls.methods.values():
+            flow = None
+            for st in walk_no_nested(m.node):
+                if not (isinstance(st, ast.AugAssign) and isinstance(st.target, ast.Subscript)):
+                    continue
+                idx = st.target.slice
+                if isinstance(idx, (ast.Slice, ast.Constant)) or (isinstance(idx, ast.Tuple) and all(isinstance(e, (ast.Slice, ast.Constant)) or (isinstance(e, ast.Name) and len(e.id) == 1) for e in idx.elts)):
+                    continue
+                n += 1
+                flow = flow or flow_of(m.node)
+                at = flow.node_containing(st)
+                rv = ExprResolver(m.node).resolve(idx, at) if at is not None else idx
+                why = None
+                for c in ast.walk(rv):
+                    if isinstance(c, ast.Call) and dotted(c.func).split(".")[-1] in REPEATING:
+                        why = dotted(c.func)
+                # a name bound by tuple-unpacking np.unique(..., return_inverse=True)
+                for x in ast.walk(idx):
+                    if isinstance(x, ast.Name) and at is not None:
+                        for d in flow.reaching(at, x.id):
+                            if d.value is not None and isinstance(d.value, ast.Call) and dotted(d.value.func).split(".")[-1] in REPEATING and any(k.arg in ("return_inverse",) for k in d.value.keywords):
+                                why = dotted(d.value.func) + "(return_inverse=True)"
+                            elif d.value is not None and isinstance(d.value, ast.Call) and dotted(d.value.func).split(".")[-1] in REPEATING and dotted(d.value.func).split(".")[-1] != "unique":
+                                why = dotted(d.value.func)
+                R.check("C15.i", "no in-place accumulation through an index array that repeats by construction", why is None, m, st,
+                        msg=f"{m.short}: `{unparse(st)[:70]}` accumulates through an index array from `{why}`, which repeats indices by construction: numpy applies each distinct "
+                            f"index once, so all but one contribution per index are dropped (use np.add.at / np.bincount)", key=f"fancy-accumulate:{m.short}")
+    R.check("C15.i", "augmented assignments through index arrays scanned", True, None, None, key="fancy-accumulate-scan")
+    R.analysed["C15.i:augmented subscript stores scanned"] = n
+
+
 def run(ctx: Context, R: Reporter):
     hc = hier_class(ctx)
     gc = gmm_class(ctx, hc)
@@ -479,6 +572,8 @@ def run(ctx: Context, R: Reporter):
     R.guard(rule_e, ctx, R, gc, hc)
     R.guard(rule_f, ctx, R, gc, hc)
     R.guard(rule_g, ctx, R, gc)
+    R.guard(rule_h, ctx, R, gc)
+    R.guard(rule_i, ctx, R, gc, hc)
 
 
 def rule_f(ctx: Context, R: Reporter, gc, hc):
@@ -526,6 +621,10 @@ def variants():
         Variant("c-three-components", "bad", replace_expr(cl, f"{H}.fit", "GaussianMixture(n_components=2, covariance_type=self.covariance_type, n_init=self.n_init)", "GaussianMixture(n_components=3, covariance_type=self.covariance_type, n_init=self.n_init)"), ["C15.c"]),
         Variant("d-mstep-unnormalised", "bad", delete_stmt(cl, "GaussianMixture._m_step", "weights /= np.sum(weights)"), ["C15.d"], quick=True),
         Variant("e-drop-weight-normalisation", "bad", delete_stmt(cl, "GaussianMixture.fit", "sample_weight = sample_weight / np.sum(sample_weight)"), ["C15.e"], quick=True),
+        Variant("h-diag-density-without-jitter", "bad", replace_stmt(cl, "GaussianMixture.predict", "cov = self._get_covariance(self.covariances_, k)", "cov = self._get_covariance(self.covariances_, k)\nif self.covariance_type == 'diag':\n    v = self.covariances_[k]\n    log_probabilities[:, k] = np.log(self.weights_[k] + 1e-10) - 0.5 * np.sum((X - self.means_[k]) ** 2 / v + np.log(2 * np.pi * v), axis=1)\n    continue"), ["C15.h"], quick=True),
+        Variant("h-density-on-bare-covariance", "bad", replace_expr(cl, "GaussianMixture._compute_lower_bound", "cov + np.eye(cov.shape[0]) * self.reg_covar", "cov"), ["C15.h"]),
+        Variant("i-merge-duplicates-fancy-add", "bad", replace_stmt(cl, "GaussianMixture.fit", "sample_weight = sample_weight / np.sum(sample_weight)", "sample_weight = sample_weight / np.sum(sample_weight)\nrows, inverse = np.unique(X, axis=0, return_inverse=True)\nmerged = np.zeros(len(rows))\nmerged[inverse] += sample_weight\nX, sample_weight = rows, merged"), ["C15.i"], quick=True),
+        Variant("i-benign-merge-duplicates-add-at", "benign", replace_stmt(cl, "GaussianMixture.fit", "sample_weight = sample_weight / np.sum(sample_weight)", "sample_weight = sample_weight / np.sum(sample_weight)\nrows, inverse = np.unique(X, axis=0, return_inverse=True)\nmerged = np.zeros(len(rows))\nnp.add.at(merged, inverse, sample_weight)\nX, sample_weight = rows, merged")),
         Variant("benign-rename-child", "benign", alpha_rename(cl, f"{H}.fit", "child1", "left"), quick=True),
         Variant("benign-rename-iteration", "benign", alpha_rename(cl, f"{H}.fit", "iteration", "n_iter")),
     ]
